@@ -25,6 +25,7 @@ type ProgGen struct {
 	// knobs
 	PrintPct  int  // chance of a print before each term (default 9)
 	forceExplicit bool
+	HeavyPol      bool // explicit polarities on about a third of the names instead of a few
 	wantExplicit  bool
 	UniformNames  bool // with LocalNames: one stem for all binders
 	LocalNames    bool // name counters per declaration instead of one per program
@@ -136,7 +137,11 @@ func pol(n ast.Nm, t *ast.Ty, on bool) ast.Nm {
 }
 
 func (g *ProgGen) nm(s string, t *ast.Ty) ast.Nm {
-	return pol(ast.N(s), g.unf(t), g.Chance(4, "polann"))
+	pct := 4
+	if g.HeavyPol {
+		pct = 35
+	}
+	return pol(ast.N(s), g.unf(t), g.Chance(pct, "polann"))
 }
 
 func (g *ProgGen) self(t *ast.Ty) ast.Nm {
@@ -577,6 +582,7 @@ func (g *ProgGen) elim(ctx []Var, A *ast.Ty) *ast.Term {
 func NewProgGen(d D) *ProgGen {
 	tg := &TyGen{D: d, MaxDepth: 2, Acyclic: true}
 	g := &ProgGen{D: d, TG: tg, budget: 30}
+	g.HeavyPol = d.Chance(20, "heavypol")
 	g.LocalNames = d.Chance(60, "localnames")
 	g.UniformNames = g.LocalNames && d.Chance(50, "uniformnames")
 	n := d.Int(0, 4, "ntypes")
